@@ -27,6 +27,23 @@ S->C : every per-axis class exported by Gen_PyramidAssembly (o, n, f, outcome,
        references); the reference downscaler is constructed directly from its
        class, never through get_downscaler.  Directed jobs: "auto" with an
        outside value on odd-sized generator infos through both entry paths.
+       Function-API runs RE-USE one downscaler object per (method, outside
+       value, info type) for all pyramids of the run (different data types,
+       channel counts, sizes); a directed sequence uint8, uint16, float32,
+       uint32, uint8, uint64 shares one averaging object of its own.
+       Tool level (last clause): infos the tool cannot process - per-axis
+       pairs the model classifies as Error (hand-edited chunk sizes) and size
+       pairs related by a factor 3 - go through compute_scales.main(argv); a
+       zero exit status (main returns None / 0) obliges every level to exist
+       and equal the global downscale, whatever the info:
+       oracle:FailsInsteadOfWrongData otherwise.
+       Third entry path: the all-in-one tool
+       scripts.volume_to_precomputed_pyramid.main(argv) on NIfTI files (> 128
+       voxels on one axis so that the fixed target chunk 64 yields a second
+       scale) with --type image / segmentation / none, --encoding, default
+       method; TLC applies the documented selection rule to the type of the
+       FINAL info read back from the dataset; transition 0 starts from the
+       first scale as the tool's conversion step stored it.
        Source faults (last clause of the property): on pairs that are
        processable, one chunk of the PRECEDING scale is removed, given a bad
        gzip magic number or truncated right before the step that reads it
@@ -48,7 +65,7 @@ RULE = ("one evaluation = one scale transition of one real run (level case: two 
         "+ global reference, optionally with one source chunk of the preceding scale removed / "
         "damaged before the step; provenance case: one recorded run); non-trivial when the new level "
         "has >= 2 voxels; distinct = distinct (per-axis instances, origin, method or 'auto' + info "
-        "type, entry path lib / cli, outside value, dtype, channels, encoding, storage, source "
+        "type, entry path lib / cli / all-in-one, outside value, dtype, channels, encoding, storage, source "
         "fault, mode)")
 LET = {"C": "Correct", "E": "Error", "S": "SilentWrong"}
 METHODS = ["stride", "average", "majority"]
@@ -319,6 +336,8 @@ def generator_jobs(ctx):
 
 # -------------------------------------------------------------- execution ---
 def run_job(ctx, work, job, salt):
+    if job.get("all_in_one"):
+        return run_all_in_one_job(ctx, work, job, salt)
     sc = job["scales"]
     voxels = int(np.prod(sc[0]["size"]))
     var = job.get("variant") or pick_variant(ctx, voxels, scales=sc)
@@ -332,32 +351,81 @@ def run_job(ctx, work, job, salt):
     runs = [pd.run_pyramid(work, info, var["storage"], vol, var["method"], pat, var["outside"],
                            via=var["via"], fault=fault, explicit_auto=var.get("explicit_auto", False))
             for pat in (0x5A, 0xA5)]
+    if "shared_prior" in runs[0]:
+        job["prior_dtypes"] = [dt for dt in runs[0]["shared_prior"] if dt != var["dtype"]]
+    return level_cases_of(job, info, vol, runs), runs
+
+
+def run_all_in_one_job(ctx, work, job, salt):
+    """third entry path: scripts.volume_to_precomputed_pyramid.main(argv) on a
+    NIfTI file; the scales are the tool's own (gen), the info type is the FINAL
+    one read back from the written info file"""
+    var = job["variant"]
+    vol = pd.make_volume(job["size"], var["dtype"], 1, ctx.np_rng(salt), var["kind"])
+    runs = [pd.run_all_in_one(work, vol, pat, dataset_type=var["type_option"],
+                              encoding=var["encoding_option"], storage=var["storage"],
+                              method=var["method"], outside_value=var["outside"],
+                              explicit_auto=var.get("explicit_auto", False))
+            for pat in (0x5A, 0xA5)]
+    ra = runs[0]
+    info = ra.get("info")
+    if info is None or ra.get("setup_error") or runs[1].get("setup_error") or len(ra["levels"]) < 1:
+        job["setup_error"] = ra.get("setup_error") or ra["raised"] or "no dataset"
+        job["scales"], job["axes3"] = [], []
+        return [], runs
+    sc = info["scales"]
+    job["scales"] = [{"key": s_["key"], "size": s_["size"], "chunk": s_["chunk_sizes"][0],
+                      "resolution": s_["resolution"]} for s_ in sc]
+    job["axes3"] = [[{"size": sc[k]["size"][a], "o": sc[k]["chunk_sizes"][0][a],
+                      "n": sc[k + 1]["chunk_sizes"][0][a],
+                      "f": 1 if sc[k]["size"][a] == sc[k + 1]["size"][a] else 2} for a in range(3)]
+                    for k in range(len(sc) - 1)]
+    var["itype"] = info["type"]                  # the FINAL type (recorded, TLC selects on it)
+    var["encoding"] = sc[0]["encoding"]
+    var["channels"] = info["num_channels"]
+    # the first scale AS STORED by the tool's conversion step is the preceding level of transition 0
+    return level_cases_of(job, info, ra["levels"][0], runs), runs
+
+
+def level_cases_of(job, info, vol, runs):
+    var = job["variant"]
+    sc = job["scales"]
+    fault = job.get("fault")
     scale = 8 if var["dtype"] == "float32" else 1
     cases = []
     ra, rb = runs
     if ra.get("setup_error") or rb.get("setup_error") or ra.get("fault_error") or rb.get("fault_error"):
         job["setup_error"] = (ra.get("setup_error") or rb.get("setup_error")
                               or ra.get("fault_error") or rb.get("fault_error"))
-        return cases, runs
+        return cases
     auto = var["method"] == "auto"
+    foreign = bool(job.get("foreign"))
 
     def ref_ints(prev, k, method, shape):
-        ref = pd.global_reference(prev, info, k, method, var["outside"])
+        try:
+            ref = pd.global_reference(prev, info, k, method, var["outside"],
+                                      factors=pd.ratio_factors(info, k) if foreign else None)
+        except Exception:
+            if not foreign:
+                raise
+            return [-1]     # the documented class does not support the size ratio
         return pd.flat_ints(ref, scale) if list(ref.shape) == list(shape) else [-1]
 
+    tool = var["via"] in ("cli", "v2p")
     for k in range(len(sc) - 1):
         started = ra["started"]
-        if k not in started:
-            break
+        if k not in started and not (tool and not ra["raised"] and not rb["raised"]):
+            break       # (a tool that returned status 0 is judged on EVERY transition of the info)
         faulted = fault is not None and k == fault["level"]
         if fault is not None and not faulted:
             continue    # transitions before the damaged scale were judged in the plain run (and the
                         # final read-back of their new level sees the damage made afterwards)
-        raised = ra["raised"] if (ra["raised"] and k == started[-1]) else ""
+        raised = ra["raised"] if (ra["raised"] and started and k == started[-1]) else ""
         raised_b = rb["raised"] if (rb["raised"] and rb["started"] and k == rb["started"][-1]) else ""
         case = {"mode": "level", "axes": job["axes3"][k], "gen": job["gen"],
                 "raised": raised or raised_b, "a": [], "b": [], "ref": [], "missing": 0,
                 "sel": "auto" if auto else "explicit", "itype": var["itype"],
+                "via": var["via"], "foreign": foreign,
                 "fault": fault["kind"] if faulted else ""}
         if not case["raised"]:
             if faulted:
@@ -377,7 +445,7 @@ def run_job(ctx, work, job, salt):
         cases.append((k, case))
         if faulted:
             break       # later transitions start from a damaged scale: outside the case
-    return cases, runs
+    return cases
 
 
 def fault_jobs(ctx, jobs):
@@ -419,6 +487,98 @@ DIRECTED_AUTO = [
 ]
 
 
+SHARED_OBJECT_DTYPES = ["uint8", "uint16", "float32", "uint32", "uint8", "uint64"]
+ALL_IN_ONE = [
+    # (size, dtype, --type, --encoding, --outside-value, storage)
+    ([130, 3, 2], "uint16", "segmentation", None, None, "gzip"),
+    ([150, 5, 3], "uint8", "segmentation", None, 7, "deep"),
+    ([129, 2, 1], "uint16", "image", None, 7, "flat"),
+    ([260, 3, 1], "uint8", None, None, None, "gzip"),
+    ([131, 4, 1], "uint16", None, "compressed_segmentation", None, "deep"),
+    ([133, 3, 2], "float32", None, None, 0, "gzip"),
+    ([140, 2, 2], "uint32", "segmentation", "compressed_segmentation", None, "flat"),
+    ([137, 5, 1], "uint32", "image", None, None, "gzip"),
+]
+
+
+def shared_object_jobs(ctx, gen_jobs):
+    """function API with ONE averaging downscaler object (a key of its own:
+    outside value 3) for consecutive pyramids of different data types,
+    narrower types first"""
+    base = [j for j in gen_jobs if j.get("fixed") == 0]
+    out = []
+    for dtype in SHARED_OBJECT_DTYPES if base else []:
+        j = base[0]
+        dj = {k: j[k] for k in ("axes3", "scales", "class", "gen", "input")}
+        dj.update(origin="directed-shared-object",
+                  variant={"method": "average", "itype": "image", "dtype": dtype, "channels": 1,
+                           "encoding": "raw", "storage": "deep", "kind": "random",
+                           "outside": 3, "via": "lib", "explicit_auto": False})
+        out.append(dj)
+    return out
+
+
+def unprocessable_cli_jobs(ctx, table):
+    """infos the tool cannot process, through compute_scales.main(argv): pairs
+    the per-axis model classifies as Error (hand-edited chunk sizes) and size
+    pairs related by a factor 3 (foreign)"""
+    rng = ctx.rng
+    out = []
+    err = [c for c in axis_classes(ctx, table) if c["outcome"] == "Error" and c["size"] <= 24]
+    rng.shuffle(err)
+    seen = set()
+    for c in err:
+        if (c["o"], c["n"], c["f"]) in seen:
+            continue
+        seen.add((c["o"], c["n"], c["f"]))
+        if len(seen) > ctx.pick(14, 60):
+            break
+        main = {k: c[k] for k in ("o", "n", "f", "size")}
+        axes = [{"o": 2, "n": 2, "f": 1, "size": rng.choice([1, 2, 3])},
+                {"o": 2, "n": 2, "f": 2, "size": rng.choice([2, 3, 5])}]
+        axes.insert(rng.randrange(3), main)
+        method = rng.choice(["stride", "average", "auto"])
+        out.append({"origin": "directed-unprocessable", "axes3": [axes], "scales": info_from_axes(axes),
+                    "class": c, "gen": False,
+                    "variant": {"method": method, "itype": "image",
+                                "dtype": rng.choice(["uint8", "uint16", "uint32"]), "channels": 1,
+                                "encoding": "raw", "storage": rng.choice(STORAGES[:3]), "kind": "unique",
+                                "outside": None, "via": "cli", "explicit_auto": True}})
+    for _ in range(ctx.pick(4, 30)):
+        fs = [rng.choice([1, 2, 3]) for _a in range(3)]
+        fs[rng.randrange(3)] = 3
+        axes = [{"o": rng.choice([2, 4]), "n": rng.choice([2, 4]), "f": f, "size": rng.choice([3, 4, 7, 9])}
+                for f in fs]
+        out.append({"origin": "directed-foreign", "axes3": [axes], "scales": info_from_axes(axes),
+                    "class": None, "gen": False, "foreign": True,
+                    "variant": {"method": rng.choice(["stride", "average", "auto"]), "itype": "image",
+                                "dtype": "uint16", "channels": 1, "encoding": "raw",
+                                "storage": rng.choice(STORAGES[:3]), "kind": "unique", "outside": None,
+                                "via": "cli", "explicit_auto": False}})
+    return out
+
+
+def all_in_one_jobs(ctx):
+    rng = ctx.rng
+    rows = list(ALL_IN_ONE)
+    for _ in range(ctx.pick(0, 40)):
+        size = [rng.randint(129, 270), rng.randint(1, 6), rng.randint(1, 3)]
+        rng.shuffle(size)
+        dtype = rng.choice(["uint8", "uint16", "uint32", "float32"])
+        typ = rng.choice([None, "image", "segmentation"]) if dtype != "float32" else rng.choice([None, "image"])
+        enc = "compressed_segmentation" if (typ != "image" and dtype != "float32" and rng.random() < 0.3) else None
+        rows.append((size, dtype, typ, enc, rng.choice([None, 0, 7]), rng.choice(STORAGES[:3])))
+    out = []
+    for size, dtype, typ, enc, outside, storage in rows:
+        out.append({"origin": "all-in-one", "all_in_one": True, "size": size, "gen": True, "class": None,
+                    "scales": [], "axes3": [],
+                    "variant": {"method": "auto", "dtype": dtype, "channels": 1, "kind": "unique",
+                                "type_option": typ, "encoding_option": enc, "outside": outside,
+                                "storage": storage, "via": "v2p", "itype": None,
+                                "encoding": enc or "raw", "explicit_auto": rng.random() < 0.3}})
+    return out
+
+
 def directed_jobs(ctx, gen_jobs):
     """default method "auto" + outside value on odd-sized infos of the real
     generator, through both entry paths"""
@@ -447,6 +607,7 @@ def sig_level(job, k, case, clause):
     bad_axes = [a for a in axes if a["o"] // a["f"] == 0
                 or a["n"] not in (a["o"] // a["f"], 2 * (a["o"] // a["f"]))]
     sig = {"origin": job["origin"], "gen": job["gen"], "mode": case["mode"], "level": k,
+           "foreign": bool(case.get("foreign")),
            "raised": case["raised"], "method": var["method"], "itype": var.get("itype"),
            "via": var.get("via", "lib"), "outside": var.get("outside"),
            "fault": case.get("fault", ""), "dtype": var["dtype"],
@@ -471,6 +632,12 @@ def run(ctx):
         "the reference downscaler is the documented class constructed directly "
         "(AveragingDownscaler(outside_value) / MajorityDownscaler / StridingDownscaler); for the default "
         "method 'auto' the documented rule (image -> average, otherwise stride) is applied by TLC",
+        "one downscaler object may serve several pyramids (function API): the property does not tie a "
+        "downscaler to one data type",
+        "tool level (compute-scales, volume-to-precomputed-pyramid main): a returned status None / 0 means "
+        "success; then every transition of the info must have produced the global downscale, also for "
+        "hand-edited infos; for size pairs not related by factors 1 / 2 the reference uses the smallest "
+        "factor with ceil(old / f) = new",
         "a pair 'cannot be processed' also when a chunk of the preceding scale is missing or unreadable: "
         "any exception (or non-zero status) is accepted, and so is a completed level equal to the global "
         "downscale of the intact preceding scale; the transitions after the damaged one are not judged",
@@ -480,13 +647,16 @@ def run(ctx):
     table = class_table(ctx)
     work = ctx.scratch("verif_pyr_")
     gen_jobs = generator_jobs(ctx)
-    jobs = handmade_jobs(ctx, table) + gen_jobs + directed_jobs(ctx, gen_jobs)
+    jobs = (handmade_jobs(ctx, table) + gen_jobs + directed_jobs(ctx, gen_jobs)
+            + shared_object_jobs(ctx, gen_jobs) + unprocessable_cli_jobs(ctx, table) + all_in_one_jobs(ctx))
     level_cases = []
     import time
     t0 = time.time()
     for n, job in enumerate(jobs):
+        job["salt"] = n
         cases, runs = run_job(ctx, work, job, n)
-        job["all_completed"] = (len(cases) == len(job["scales"]) - 1
+        job["all_completed"] = (not job.get("all_in_one") and not job.get("foreign")
+                                and len(cases) == len(job["scales"]) - 1
                                 and all(not c["raised"] for _, c in cases))
         for k, case in cases:
             level_cases.append((job, k, case))
@@ -495,6 +665,7 @@ def run(ctx):
     t1 = time.time()
     fjobs = fault_jobs(ctx, plain_jobs)
     for n, job in enumerate(fjobs):
+        job["salt"] = len(plain_jobs) + n
         cases, runs = run_job(ctx, work, job, len(plain_jobs) + n)
         for k, case in cases:
             level_cases.append((job, k, case))
@@ -505,6 +676,10 @@ def run(ctx):
                          "cubic": sum(1 for j in jobs if j["origin"] == "cubic"),
                          "generator": sum(1 for j in jobs if j["origin"] == "generator"),
                          "directed_auto": sum(1 for j in jobs if j["origin"] == "directed-auto"),
+                         "directed_shared_object": sum(1 for j in jobs if j["origin"] == "directed-shared-object"),
+                         "directed_unprocessable_cli": sum(1 for j in jobs if j["origin"] == "directed-unprocessable"),
+                         "directed_foreign_cli": sum(1 for j in jobs if j["origin"] == "directed-foreign"),
+                         "all_in_one": sum(1 for j in jobs if j["origin"] == "all-in-one"),
                          "source_fault": len(fjobs)}
     fc = {}
     for job, k, case in level_cases:
@@ -527,7 +702,7 @@ def run(ctx):
                       "storage": j["variant"]["storage"]} for j in setup[:5]]}
     # ---- C->S provenance traces -------------------------------------------
     prov_cases = []
-    stride_jobs = [j for j in plain_jobs if j["origin"] not in ("class2", "directed-auto")]
+    stride_jobs = [j for j in plain_jobs if j["origin"] in ("class", "cubic", "generator")]
     take = ctx.pick(150, 4000)
     if len(stride_jobs) > take:
         stride_jobs = ctx.rng.sample(stride_jobs, take)
@@ -582,6 +757,9 @@ def run(ctx):
             ctx.violation(clause, sig,
                           {"mode": case["mode"], "scales": job["scales"], "level": k,
                            "variant": job.get("variant"), "fault": job.get("fault"),
+                           "salt": job.get("salt", 0), "foreign": bool(job.get("foreign")),
+                           "all_in_one": bool(job.get("all_in_one")), "size": job.get("size"),
+                           "prior_dtypes": job.get("prior_dtypes"),
                            "gen": job["gen"], "axes": case["axes"],
                            "raised": case["raised"], "input": job.get("input"),
                            "a": case.get("a", [])[:64], "ref": case.get("ref", [])[:64]})
@@ -615,9 +793,21 @@ def replay(ctx, path):
            "variant": d.get("variant")}
     if d.get("fault"):
         job["fault"] = d["fault"]
+    if d.get("foreign"):
+        job["foreign"] = True
+        for k in range(nsc - 1):
+            for x in range(3):
+                a_, b_ = d["scales"][k]["size"][x], d["scales"][k + 1]["size"][x]
+                axes3[k][x]["f"] = ([f for f in range(1, a_ + 1) if -(-a_ // f) == b_] or [2])[0]
+    if d.get("all_in_one"):
+        job.update(all_in_one=True, size=d["size"], scales=[], axes3=[])
     out = []
     if d["mode"] == "level":
-        cases, _ = run_job(ctx, work, job, 0)
+        # a shared downscaler object has a history: the earlier pyramids of the object come first
+        for dt in d.get("prior_dtypes") or []:
+            run_job(ctx, work, dict(job, variant=dict(d["variant"], dtype=dt, encoding="raw", via="lib"),
+                                    fault=None), 0)
+        cases, _ = run_job(ctx, work, job, d.get("salt", 0))
         out = [c for k, c in cases if k == d["level"]]
     else:
         info = pd.make_info(d["scales"], "uint32", 1)
